@@ -7,11 +7,11 @@ import TickitModel.Lemmas.FlattenGenSchedLoop
 namespace Tickit
 
 theorem GenSched.start {S : Static} (hS : S.Valid) {orc : Oracle} {σ₀ : SimSt} {t : SimTime}
-    {Root : Comp → Prop} (ctx : TickCtx S σ₀ t Root) (sctx : SchedCtx S σ₀ t Root) {L : Level}
+    {Root Due : Comp → Prop} (ctx : TickCtx S σ₀ t Root) (sctx : SchedCtx S σ₀ t Root Due) {L : Level}
     (hL : L ∈ S.levels) {roots : List Comp} {st : SimSt} {mobs0 : List Obs}
-    (hpre0 : SchedPre S σ₀ Root L.name L roots st mobs0)
+    (hpre0 : SchedPre S σ₀ Root Due L.name L roots st mobs0)
     {tk : Ticker V} {ds : List (Dispatch V)} (hcall : Ticker.call L.wiring t roots = .ok (tk, ds)) :
-    GenSched S orc σ₀ Root L st mobs0 ⟨tk, ds, [], st⟩ [] := by
+    GenSched S orc σ₀ Due L st mobs0 ⟨tk, ds, [], st⟩ [] := by
   obtain ⟨_, htu, _, _⟩ := sim_call_eq_ok hcall
   have hnone : ∀ c, alookup tk.toUpdate c = none ↔ c ∉ extent L.wiring roots := by
     intro c
@@ -33,17 +33,17 @@ theorem GenSched.start {S : Static} (hS : S.Valid) {orc : Oracle} {σ₀ : SimSt
         have hcx : c ≠ pseudoExternal := by
           intro he; rw [he, hS.pseudo_fresh.1] at hc; cases hc
         have hnr : ¬ Root c := fun hr => hce (sim_root_mem_extent _ ((hpre0.hroots c hcm hcx).2 hr))
-        refine childOK_unticked hS ctx sctx hc hnr ((hpre0.own_wake c).2 hnr)
+        refine childOK_unticked hS ctx sctx hc hnr ((hpre0.own_wake c).2 (fun hd => hnr (sctx.due_sub c hd)))
           (fun s hs => hpre0.fresh_sched s (hs.below hc)) ?_
         intro x hx
         simpa using hpre0.fresh_obs x (hx.below hc) }
 
 theorem GenSched.finish {S : Static} {orc : Oracle} {σ₀ : SimSt} {t : SimTime}
-    {Root : Comp → Prop} (sctx : SchedCtx S σ₀ t Root) {L : Level} {st0 : SimSt} {mobs0 : List Obs}
-    {ls : LoopSt} {new : List Obs} (iv : GenSched S orc σ₀ Root L st0 mobs0 ls new)
-    (htu : ls.tk.toUpdate = []) : SchedPost S orc σ₀ Root L.name st0 ls.st (mobs0 ++ new) := by
+    {Root Due : Comp → Prop} (sctx : SchedCtx S σ₀ t Root Due) {L : Level} {st0 : SimSt} {mobs0 : List Obs}
+    {ls : LoopSt} {new : List Obs} (iv : GenSched S orc σ₀ Due L st0 mobs0 ls new)
+    (htu : ls.tk.toUpdate = []) : SchedPost S orc σ₀ Due L.name st0 ls.st (mobs0 ++ new) := by
   have hcl : ∀ c, alookup S.parent c = some L.name →
-      ChildOK S orc σ₀ Root L ls.st (mobs0 ++ new) c :=
+      ChildOK S orc σ₀ Due L ls.st (mobs0 ++ new) c :=
     fun c hc => iv.closed c hc (by rw [htu]; rfl)
   exact
     { lvl_ok :=
@@ -62,14 +62,14 @@ theorem GenSched.finish {S : Static} {orc : Oracle} {σ₀ : SimSt} {t : SimTime
       own_same := iv.own_same }
 
 theorem tickLoop_sched {S : Static} (hS : S.Valid) {orc : Oracle} {σ₀ : SimSt} {t : SimTime}
-    {Root : Comp → Prop} (ctx : TickCtx S σ₀ t Root) (sctx : SchedCtx S σ₀ t Root) {fuel : Nat}
-    (IH : SchedIH S orc σ₀ t Root fuel) {L : Level} (hL : L ∈ S.levels) {roots : List Comp}
-    {st0 : SimSt} {mobs0 : List Obs} (hpre0 : SchedPre S σ₀ Root L.name L roots st0 mobs0)
+    {Root Due : Comp → Prop} (ctx : TickCtx S σ₀ t Root) (sctx : SchedCtx S σ₀ t Root Due) {fuel : Nat}
+    (IH : SchedIH S orc σ₀ t Root Due fuel) {L : Level} (hL : L ∈ S.levels) {roots : List Comp}
+    {st0 : SimSt} {mobs0 : List Obs} (hpre0 : SchedPre S σ₀ Root Due L.name L roots st0 mobs0)
     {inCh : List (Port × V)} :
     ∀ (steps : Nat) (ls : LoopSt) (tr_ : List (Ev V)) (new_ : List Obs),
-      LoopInv S L t roots st0 ls tr_ new_ → GenSched S orc σ₀ Root L st0 mobs0 ls new_ →
+      LoopInv S L t roots st0 ls tr_ new_ → GenSched S orc σ₀ Due L st0 mobs0 ls new_ →
       ∀ st' out, tickLoop S orc fuel steps L inCh ls = .ok (st', out) →
-        ∃ new, st'.obs = st0.obs ++ new ∧ SchedPost S orc σ₀ Root L.name st0 st' (mobs0 ++ new) := by
+        ∃ new, st'.obs = st0.obs ++ new ∧ SchedPost S orc σ₀ Due L.name st0 st' (mobs0 ++ new) := by
   intro steps
   induction steps with
   | zero =>
@@ -110,8 +110,8 @@ theorem tickLoop_sched {S : Static} (hS : S.Valid) {orc : Oracle} {σ₀ : SimSt
 
 /-- **the schedulers after every tick of every level** -/
 theorem tickLevel_sched {S : Static} (hS : S.Valid) (orc : Oracle) {σ₀ : SimSt} {t : SimTime}
-    {Root : Comp → Prop} (ctx : TickCtx S σ₀ t Root) (sctx : SchedCtx S σ₀ t Root) :
-    ∀ fuel, SchedIH S orc σ₀ t Root fuel := by
+    {Root Due : Comp → Prop} (ctx : TickCtx S σ₀ t Root) (sctx : SchedCtx S σ₀ t Root Due) :
+    ∀ fuel, SchedIH S orc σ₀ t Root Due fuel := by
   intro fuel
   induction fuel with
   | zero =>
